@@ -291,19 +291,25 @@ func famNamed(mode string, vals map[string][]nval) []*cell {
 
 							var fs []finding
 
-							// (2) repeated execution: every execution of the site prints the same line, and a site that ran once runs every time
-							for i := 1; i < len(res); i++ {
-								if res[i] != res[0] {
-									fs = append(fs, finding{Base: "named-iter:" + dd.name + ":" + ff.name + ":" + tt.name, Desc: what + ": executions of one expression site disagree",
-										Expected: fmt.Sprintf("%d equal lines", namedRuns), Observed: strings.Join(res, " / ")})
+							// (2) repeated execution: the three executions of the loop site print one line, the three calls
+							// of the function site print one line, and a site that ran once runs every time. (Whether the two
+							// sites print the SAME line is the oracle's matter below: they are two compilations of one text.)
+							iterBase := "named-iter:" + dd.name + ":" + ff.name + ":" + tt.name
 
-									break
+							for _, site := range [][2]int{{0, 3}, {3, 6}} {
+								for i := site[0] + 1; i < site[1] && i < len(res); i++ {
+									if res[i] != res[site[0]] {
+										fs = append(fs, finding{Base: iterBase, Desc: what + ": executions of one expression site disagree",
+											Expected: "3 equal lines per site", Observed: strings.Join(res, " / ")})
+
+										break
+									}
 								}
 							}
 
-							if len(fs) == 0 && len(res) > 0 && len(res) != namedRuns {
-								fs = append(fs, finding{Base: "named-iter:" + dd.name + ":" + ff.name + ":" + tt.name, Desc: what + ": the site succeeded on some executions and failed on a later one",
-									Expected: fmt.Sprintf("%d equal lines", namedRuns), Observed: strings.Join(res, " / ") + errSuffix(o)})
+							if len(fs) == 0 && len(res) > 0 && len(res) != namedRuns && len(res) != 3 {
+								fs = append(fs, finding{Base: iterBase, Desc: what + ": the site succeeded on some executions and failed on a later one",
+									Expected: "3 equal lines per site", Observed: strings.Join(res, " / ") + errSuffix(o)})
 							}
 
 							// (1) the oracle
@@ -331,8 +337,18 @@ func famNamed(mode string, vals map[string][]nval) []*cell {
 									x, y, tx, ty = typdc, av.v, dkT, tt
 								}
 
-								if _, bad := promoted(group, what, res[0], ff.op, tx, ty, x, y); bad != nil {
-									fs = append(fs, *bad)
+								if len(res) != namedRuns {
+									fail("some executions of the site did not print", fmt.Sprint(namedRuns, " lines"), strings.Join(res, " / ")+errSuffix(o))
+
+									break
+								}
+
+								for _, l := range res {
+									if _, bad := promoted(group, what, l, ff.op, tx, ty, x, y); bad != nil {
+										fs = append(fs, *bad)
+
+										break
+									}
 								}
 
 							case endc == endReject:
@@ -346,8 +362,15 @@ func famNamed(mode string, vals map[string][]nval) []*cell {
 								}
 
 							default:
-								if len(res) == 0 || res[0] != wantc {
-									fail("wrong type or value", wantc, strings.Join(res, " / "))
+								bad := len(res) != namedRuns
+								for _, l := range res {
+									if l != wantc {
+										bad = true
+									}
+								}
+
+								if bad {
+									fail("wrong type or value (loop site x3 / function site x3)", wantc, strings.Join(res, " / "))
 								}
 							}
 
